@@ -134,6 +134,7 @@ def run(ctx):
     bases_list = []
     nruns = 0
     blocked_runs = 0
+    behaviours_followed = behaviours_total = 0
     budget = 260 if quick else 4000
     per_scen = budget // len(scen)
     for si, (basis, prog) in enumerate(scen):
@@ -194,6 +195,43 @@ def run(ctx):
                                         "second": second, "j2": j2}, prog, expected[si], out)
                             events.append({"ev": "Run", "b": bi, "t": 0})
                             events += [dict({"k": 0, "size": 0}, **e) for e in out["events"]]
+        # behaviours of the model (TLC -simulate on C07_Behaviours) followed event by event on the real threads
+        if si < (4 if quick else len(scen)):
+            mod = util.mc_module("MC_C07B", "C07_Behaviours", {"BasisDef": c02.tla_basis(basis), "ProgDef": prog_tla(prog)})
+            kb = {"Basis": ("<-", "BasisDef"), "Prog": ("<-", "ProgDef"), "LockMode": '"as_coded"'}
+            rb = tlc.run_tlc("MC_C07B", util.cfg(init="HInit", next_="HNext", invariants=INVS + ["EmitHist"], constants=kb),
+                             workers=1, files={"MC_C07B.tla": mod}, simulate="num=%d" % (25 if quick else 300), depth=400,
+                             seed=ctx.seed % 100000 + si, timeout=600)
+            ctx.add_tlc(rb, "simulated behaviours of the coded discipline")
+            words = []
+            for x in rb.records:
+                if "word" in x and x["word"] not in words:
+                    words.append(x["word"])
+            followed = 0
+            for word in words:
+                av = fresh(basis)
+                sch.completed = {t: 0 for t in order}
+
+                def counting(th, t):
+                    def run_calls():
+                        out_ = []
+                        for c in th:
+                            out_.append(real_call(av, c))
+                            sch.completed[t] += 1
+                        return out_
+                    return run_calls
+                pol = sched.EventWordPolicy(word)
+                out = sch.run(av, {t + 1: counting(th, t + 1) for t, th in enumerate(prog)}, pol)
+                sch.completed = {}
+                nruns += 1
+                ctx.case(("behaviour", si, json.dumps(word)[:200]), nontrivial=True)
+                judge(ctx, {"kind": "behaviour", "basis": basis, "prog": prog, "scenario": si, "word": word}, prog, expected[si], out)
+                if pol.mismatch is not None:
+                    ctx.drift("scenario %d: model behaviour not followed by the real threads at event %s" % (si, pol.mismatch))
+                else:
+                    followed += 1
+            behaviours_followed += followed
+            behaviours_total += len(words)
         # random schedule words (also for three threads)
         for _ in range(6 if quick else 200):
             word = [rnd.choice(order) for _ in range(rnd.randint(20, 400))]
@@ -207,6 +245,9 @@ def run(ctx):
             events += [dict({"k": 0, "size": 0}, **e) for e in out["events"]]
     if blocked_runs == 0:
         raise tlc.MachineryFailure("C07: no controlled run ever had a thread blocked on the lock (preemption never hit the critical section)")
+    if behaviours_total and behaviours_followed == 0:
+        ctx.drift("none of the %d simulated model behaviours could be followed event by event" % behaviours_total)
+    ctx.note("model_behaviours_followed_event_by_event", "%d of %d" % (behaviours_followed, behaviours_total))
     ctx.note("controlled_runs", nruns)
     ctx.note("runs_with_a_blocked_thread", blocked_runs)
     ctx.sample({"scenario": scen[1][1], "expected": expected[1], "events_of_one_run": events[1:12]})
@@ -252,7 +293,9 @@ def replay(ctx, path):
     av = fresh(basis)
     order = list(range(1, len(prog) + 1))
     fns = {t + 1: (lambda th=th: [real_call(av, c) for c in th]) for t, th in enumerate(prog)}
-    if case["kind"] == "word":
+    if case["kind"] == "behaviour":
+        pol = sched.EventWordPolicy(case["word"])
+    elif case["kind"] == "word":
         pol = sched.word_policy(case["word"])
     elif case["kind"] == "schedule2":
         pol = sched.two_preempt_policy(order, case["first"], case["j"], case["second"], case["j2"])
